@@ -284,12 +284,10 @@ func cleanPath(path string) string {
 	}
 	var b = []byte(path)
 	for i := 0; i < len(b); i++ {
-		if b[i] == '/' {
-			if b[i+1] == '.' && b[i+2] == '.' {
-				s := bytes.LastIndexByte(b[:i], '/')
-				b = append(b[:s+1], b[i+4:]...)
-				i = s - 1
-			}
+		if b[i] == '/' && bytes.HasPrefix(b[i+1:], []byte("..")) && (i+3 == len(b) || b[i+3] == '/') {
+			s := bytes.LastIndexByte(b[:i], '/')
+			b = append(b[:s+1], b[min(i+4, len(b)):]...)
+			i = max(s, 0) - 1
 		}
 	}
 	return string(b)
